@@ -40,6 +40,12 @@ claim("C20", "exploration",
   "deterministic simulation: scripted fault histories with recording listeners vs predicted event stream (exactly-once bracketing, nesting, values, stack chains)",
   "DESIGN.md §5 C20")
 
+claim("C07", "exploration",
+  "One scenario per run: a non-terminating guest of a tape-chosen cycle shape (10 shapes incl. every tail-call form, indirect calls, loops entered from host callbacks; with padding) x yielding/pure spin x cause (cancel, deadline, close from another goroutine, Runtime.Close) x moment (already done, k-th host callback, second goroutine), both engines. Oracle: the call returns (watchdog: a hang is the violation), exit error with the cause's code, module closed, and for yielding guests a plan-derived bound on host callbacks after the closed flag is visible. Sampling over shapes and moments, not proof that every cycle has a check.",
+  "Trusted: the shape catalogue covers the ways to form a cycle; for pure spins on the compiler the cancellation instant is not controlled (oracle is moment-independent). Watchdog 30 s is >10^4 x the healthy latency.",
+  "deterministic simulation: simulator-owned cancellation moment and cause over cycle-shape guests, liveness by supervisor watchdog and step bound, replay of the scenario tape",
+  "DESIGN.md §5 C07")
+
 def main():
     m = dict(version=1,
       setup_cmd="./setup.sh",
